@@ -48,7 +48,8 @@ def run(tier):
     violations, distinct, samples = [], set(), []
     states = transitions = replayed = 0
     rnd = random.Random(seed())
-    plans = [("bfs-1srv", dict(servers=[1], maxmsgs=3, maxops=6 if tier == "quick" else 7), [("os", "thread"), ("os", "process")]),
+    plans = [("bfs-1srv", dict(servers=[1], maxmsgs=3, maxops=6 if tier == "quick" else 7),
+              [("os", "thread"), ("os", "process"), ("os", "forked")]),
              ("sim-2srv", dict(servers=[1, 2], maxmsgs=3, maxops=14, simulate=40 if tier == "quick" else 4000, depth=40,
                                tlcseed=seed()), [("os", "process"), ("memfd", "thread")])]
     for name, kw, targets in plans:
@@ -77,6 +78,9 @@ def run(tier):
         for variant, mode in targets:
             build_harness(variant)
             use = behs if mode == "thread" else behs[:max(200, len(behs) // 6)]
+            if mode == "forked":
+                # the forked child runs them with the client as a thread
+                use = [b for b in behs if True][:max(300, len(behs) // 4)]
             vs = replay_behs(use, variant, mode)
             nbad = 0
             for b, v in zip(use, vs):
